@@ -4,7 +4,7 @@
    every sequence of canonical symbols and every width w >= 1 (w = 0 is outside the property:
    chunks(0) does not terminate). *)
 From Coq Require Import List NArith Bool Arith.
-From BioSeq Require Import Bits Codec SeqModel SeqProofs IterProofs.
+From BioSeq Require Import Bits Codec SeqModel SeqProofs IterProofs Partition.
 Import ListNotations.
 
 Theorem C11_forward_iteration : forall (C : codec), codec_ok C -> forall xs : list N,
@@ -43,6 +43,22 @@ Theorem C11_chain : forall (C : codec), codec_ok C -> forall xs ys : list N,
 Proof. exact chain_spec. Qed.
 
 (* non-vacuity: widths 1..n+2 on a concrete length *)
+(* what those items add up to: the chunks are each exactly w long and concatenated give back the
+   first (length xs / w) * w symbols, so only an incomplete tail shorter than w is dropped and
+   nothing is repeated or skipped; every window is exactly w long and window i starts at symbol i *)
+Theorem C11_chunks_partition_the_prefix : forall (xs : list N) (w : nat),
+  1 <= w ->
+  let cs := map (fun k => sub xs (k * w) w) (seq 0 (length xs / w)) in
+  concat cs = firstn (length xs / w * w) xs /\
+  Forall (fun c => length c = w) cs /\
+  length xs - length (concat cs) < w.
+Proof. exact chunks_partition. Qed.
+
+Theorem C11_window_items : forall (xs : list N) (w i : nat),
+  1 <= w -> In i (seq 0 (length xs + 1 - w)) ->
+  length (sub xs i w) = w /\ forall j, j < w -> nth j (sub xs i w) 0%N = nth (i + j) xs 0%N.
+Proof. exact windows_items. Qed.
+
 Example C11_counts_example : (5 + 1 - 2 = 4) /\ (5 / 2 = 2) /\ (5 + 1 - 7 = 0).
 Proof. repeat split. Qed.
 
@@ -58,3 +74,5 @@ Print Assumptions C11_chunks.
 Print Assumptions C11_windows_count.
 Print Assumptions C11_chunks_count.
 Print Assumptions C11_chain.
+Print Assumptions C11_chunks_partition_the_prefix.
+Print Assumptions C11_window_items.
